@@ -16,6 +16,7 @@ func verifEventKind(i int, nodes chan *shared.ParserNode, errs chan error, done 
 }
 func verifEventNode(i int) *shared.ParserNode { panic("engine only") }
 func verifEventErr(i int) error              { panic("engine only") }
+func verifOnSend(f func())                   { panic("engine only") }
 
 type hEvent struct {
 	kind int // 0 node, 1 error, 2 done
@@ -349,5 +350,72 @@ func Harness_channel_parse_file() {
 	}
 	if policy == 1 {
 		verifAssert("producer-exits-after-drain", producerDone)
+	}
+}
+
+// Harness_channel_two_parsers: a consumer that parses another stream (with the callback parser)
+// each time it has received a record from the channel parser still observes the channel
+// parser's own records: parsers do not share state. In the executor the consumer's reaction
+// runs at the producer's send (the schedule in which the consumer is quick); natively real
+// goroutines run.
+func Harness_channel_two_parsers() {
+	src := "d0:\n  apple: 150\n  pear: 2\nd1:\n  plum: 3\n"
+	other := "x0:\n  banana: 50\n  cherry: 7\nx1:\n  kiwi: 9\n"
+	ref := &hRec{}
+	ParseStreamCallback(strings.NewReader(src), NewDefaultConfig(), ref.cb)
+	react := func() {
+		r := &hRec{}
+		ParseStreamCallback(strings.NewReader(other), NewDefaultConfig(), r.cb)
+	}
+	p := NewParser(NewDefaultConfig())
+	var got []*shared.ParserNode
+	sawDone, sawErr := false, false
+	if verifEngine() {
+		verifOnSend(react)
+		p.ParseStream(strings.NewReader(src))
+		verifOnSend(nil)
+		for i := 0; i < verifEventCount(); i++ {
+			switch verifEventKind(i, p.Nodes, p.Errors, p.Done) {
+			case 0:
+				got = append(got, verifEventNode(i))
+			case 1:
+				sawErr = true
+			case 2:
+				sawDone = true
+			}
+		}
+	} else {
+		go p.ParseStream(strings.NewReader(src))
+		watchdog := time.After(2 * time.Second)
+	loop:
+		for {
+			select {
+			case n := <-p.Nodes:
+				got = append(got, n)
+				react()
+			case <-p.Errors:
+				sawErr = true
+				react()
+			case <-p.Done:
+				sawDone = true
+				break loop
+			case <-watchdog:
+				break loop
+			}
+		}
+	}
+	verifCover("observed")
+	verifAssert("consumer-terminates", sawDone)
+	verifAssert("records-before-first-error", !sawErr && len(got) == len(ref.nodes))
+	if len(got) == len(ref.nodes) {
+		for i := range got {
+			same := got[i].Header == ref.nodes[i].Header && len(got[i].Elements) == len(ref.nodes[i].Elements)
+			if same {
+				for j := range got[i].Elements {
+					same = same && got[i].Elements[j].Name == ref.nodes[i].Elements[j].Name && got[i].Elements[j].Value == ref.nodes[i].Elements[j].Value
+				}
+			}
+			verifAssert("record-identical", same)
+		}
 	}
 }
